@@ -6,7 +6,8 @@ The type checker's ERROR DIAGNOSTIC CALL SITES, read from clang's JSON AST (no r
 inside a function defined in src/typechecker.c (the printing helpers themselves excluded).
 For every site: how the enclosing path reports the failure to its caller -- looking at the statements of the innermost
 enclosing block `{ ... }` of which the call statement is a direct child:
-  Flag        the block assigns `<x>.has_error = true` / `<x>->has_error = true`
+  Flag        the block assigns `<x>.has_error = true` / `<x>->has_error = true`; or the site is an emit_context_error call and
+              emit_context_error itself bumps a file-level counter that type_check reads in its return statement
   RetUnknown  a later statement of the block is `return TYPE_UNKNOWN;`
   RetFalse    a later statement of the block is `return false;` / `return NULL;` / `return 0;` (helper predicates)
   Neither     none of these: the diagnostic is printed and checking goes on as if nothing had happened
@@ -139,7 +140,7 @@ def sites_of(fn):
                                 break
                             if rk is not None:
                                 break            # returns something else first
-                out.append(dict(function=fn['name'], what=what, kind=kind))
+                out.append(dict(function=fn['name'], what=what, kind=kind, helper=(name == 'emit_context_error')))
         for c in node.get('inner', []) or []:
             if isinstance(c, dict):
                 if c.get('kind') == 'CompoundStmt':
@@ -153,8 +154,32 @@ def sites_of(fn):
     return out, drops
 
 
+def helper_counts_errors(tu):
+    """True when emit_context_error itself records the error in a file-level variable that type_check reads in a return
+    statement (then every emit_context_error site fails the compilation whatever its block does)."""
+    bumped = set()
+    for n in tu['inner']:
+        if n.get('kind') == 'FunctionDecl' and n.get('name') == 'emit_context_error':
+            for m in _walk(n):
+                if m.get('kind') == 'UnaryOperator' and m.get('opcode') in ('++',) or \
+                   (m.get('kind') in ('BinaryOperator', 'CompoundAssignOperator') and m.get('opcode') in ('=', '+=')):
+                    tgt = _strip(m['inner'][0])
+                    if tgt.get('kind') == 'DeclRefExpr' and (tgt.get('referencedDecl') or {}).get('kind') == 'VarDecl':
+                        bumped.add((tgt.get('referencedDecl') or {}).get('name'))
+    if not bumped:
+        return False
+    for n in tu['inner']:
+        if n.get('kind') == 'FunctionDecl' and n.get('name') == 'type_check':
+            for m in _walk(n):
+                if m.get('kind') == 'ReturnStmt':
+                    if any(k.get('kind') == 'DeclRefExpr' and (k.get('referencedDecl') or {}).get('name') in bumped for k in _walk(m)):
+                        return True
+    return False
+
+
 def collect(b):
     tu = _ast(b)
+    via_helper = helper_counts_errors(tu)
     sites, drops = [], []
     for n in tu['inner']:
         if n.get('kind') != 'FunctionDecl' or not any(isinstance(c, dict) and c.get('kind') == 'CompoundStmt' for c in n.get('inner', [])):
@@ -165,6 +190,10 @@ def collect(b):
         if n['name'] in SKIP_FUNCS:
             continue
         s, d = sites_of(n)
+        if via_helper:
+            for x in s:
+                if x['kind'] == 'Neither' and x.get('helper'):
+                    x['kind'] = 'Flag'
         sites += s
         if d:
             drops.append((n['name'], d))
